@@ -147,12 +147,19 @@ def _ur(ex):
 
 contract(
     "liquid2.builtin.loaders.file_system_loader:FileSystemLoader._uptodate",
-    props=["C14"],
+    props=["C14", "C02"],
     params={"source_path": Opaque(lambda ex, name: __import__("pyvc.intrinsics_lib", fromlist=["SPath"]).SPath(
         z3.BoolVal(False), z3.BoolVal(False), z3.BoolVal(False), z3.BoolVal(True)), "path"), "mtime": Float},
-    post=["result == (mtime == stat_mtime())"],
+    # up to date iff the file is still there with the recorded modification time; a file that is gone is stale (the reload then
+    # reports it as not found) - stat()'s FileNotFoundError never escapes
+    post=["implies(not stat_missing(), result == (mtime == stat_mtime()))", "implies(stat_missing(), result == False)"],
     raises={},
 )
+
+
+@spec("stat_missing", None)
+def _smiss(ex):
+    return ex.sym("stat_file_missing", "bool")
 
 
 @spec("stat_mtime", None)
